@@ -146,15 +146,19 @@ func (x *c12) resolve() bool {
 		if s.Results().Len() != 1 || c11NamedOf(s.Results().At(0).Type()) != x.panicT || s.Params().Len() != 1 {
 			continue
 		}
-		for _, rs := range r.P.CFGOf(fi).Returns() {
-			if len(rs.Results) == 1 {
-				if u, ok := ast.Unparen(rs.Results[0]).(*ast.UnaryExpr); ok && u.Op == token.AND {
-					if _, ok := u.X.(*ast.CompositeLit); ok {
+		// its body builds a PanicError literal one of whose fields is the parameter (returned directly
+		// or through a local)
+		par0 := s.Params().At(0)
+		ast.Inspect(fi.Decl.Body, func(n ast.Node) bool {
+			if cl, ok := n.(*ast.CompositeLit); ok && c11NamedOf(x.info.TypeOf(cl)) == x.panicT {
+				for _, el := range cl.Elts {
+					if kv, ok := el.(*ast.KeyValueExpr); ok && c11ObjOf(x.info, kv.Value) == types.Object(par0) {
 						x.newPanic = fi
 					}
 				}
 			}
-		}
+			return true
+		})
 	}
 	if !r.Anchor(R, "constructor of the panic record (one parameter, returns a *PanicError literal)", x.newPanic != nil) {
 		return false
@@ -1023,6 +1027,28 @@ func (x *c12) r4() {
 				continue
 			}
 			problems = append(problems, fmt.Sprintf("field %s is filled from %s", k, exprStr(kv.Value)))
+		}
+		return true
+	})
+	// fields filled by assignments to the record after the literal: p.path = info.Path
+	ast.Inspect(x.newPanic.Decl.Body, func(nd ast.Node) bool {
+		as, ok := nd.(*ast.AssignStmt)
+		if !ok || len(as.Lhs) != len(as.Rhs) {
+			return true
+		}
+		for i, l := range as.Lhs {
+			ls, ok := ast.Unparen(l).(*ast.SelectorExpr)
+			if !ok || c11NamedOf(x.info.TypeOf(ls.X)) != x.panicT {
+				continue
+			}
+			k := ls.Sel.Name
+			if se, ok := ast.Unparen(as.Rhs[i]).(*ast.SelectorExpr); ok && strings.EqualFold(se.Sel.Name, k) {
+				facts = append(facts, k+"←"+exprStr(as.Rhs[i]))
+			} else if c11ObjOf(x.info, as.Rhs[i]) == types.Object(par) {
+				facts = append(facts, k+"←"+par.Name())
+			} else {
+				problems = append(problems, fmt.Sprintf("field %s is assigned %s", k, exprStr(as.Rhs[i])))
+			}
 		}
 		return true
 	})
